@@ -123,6 +123,49 @@ INFO = {
  "C19_f": ("String() output cached in the trie; only Reset clears it", "a rendered trie re-used as the target of a direct Unmarshal"),
  "C20_e": ("same idea as C05_e (pooled Marshal buffer, with a size cap)", "two Marshal results alive at once, streams <= 64 KiB"),
  "C20_f": ("Marshal memoises the stream and the first caller gets the cached array itself", "a stream >= 4 KiB, the first result overwritten, Marshal again"),
+ # ---- round 4 (fresh sub-agents, told the ideas of rounds 1-3)
+ "C01_g": ("short-bitmap extraction factored into getShortBM(from,to) whose straddling test is to>>6 != from>>6", "the last inner node is short and Inners ends on a 64-bit boundary"),
+ "C01_h": ("creator objects pooled (sync.Pool); the steps buffer prefix4BitLens is not detached from the returned Slim", "build A without InnerPrefix, build B, then query A"),
+ "C02_g": ("rightMost takes a node's last child from the start of the next inner node (getIthInnerFrom(i+1)) instead of decoding the node", "predecessor walk through the last inner node when the inner data ends on a 64-bit boundary"),
+ "C02_h": ("getIthLeaf slices Leaves.Bytes at ith*FixedSize when FixedSize>0, skipping the presence bitmap", "an encoder that encodes some values to zero bytes and the rest to one width"),
+ "C03_g": ("short-node conversion loop ranges over every inner node (big nodes matched on their first word)", "a big node whose labels below 0x3f are only control bytes equal to a popular small bitmap"),
+ "C03_h": ("newVLenArray decides fixed-size by totalSize == lastSize*count", "String16 values of sizes 5,3,4 in a Complete trie"),
+ "C03_i": ("normalizeOpt rewritten with setDefault: Complete only defaults InnerPrefix/LeafPrefix", "Opt{Complete:true, InnerPrefix:false}"),
+ "C04_g": ("scan label cursor rewritten word-at-a-time; end test of big nodes is labelBit > 0xff (bit 256 never yielded)", "Complete trie with a 257-bit node and a key whose byte there is 0xff"),
+ "C04_h": ("same newVLenArray aggregate slip as C03_h, seen through scans", "variable-width values whose sizes average to the last one"),
+ "C05_g": ("LeafPrefixes != nil tests replaced by a cached vars.WithLeafPrefix = LeafPrefixes.Bytes != nil", "LeafPrefix/Complete trie in which no leaf has a tail, after a marshal round trip (proto3 drops empty bytes)"),
+ "C05_h": ("SlimTrie gains XXX_Size/XXX_Marshal with a size memo cleared only by Reset", "proto.Size, then direct Unmarshal of another stream, then proto.Size"),
+ "C06_g": ("before000512FixLeafSize made nil-safe with getters; the encoder size is read and divided by before leaves are known to exist", "0.5.10/0.5.11 key-only stream loaded with encode.Dummy or a nil encoder"),
+ "C06_h": ("Unmarshal split in two; st.inner assigned only after decode; empty legacy trie returns early without init", "empty pre-0.5.10 stream loaded into a used instance"),
+ "C07_g": ("Marshal appends a CRC32 trailer; verifyChecksum treats <4 trailing bytes as no trailer", "a stream cut inside the 4-byte trailer"),
+ "C07_h": ("header version read by a hand-written headerVersion(buf) that slices up to the NUL byte", "a 16-byte version without NUL terminator: panic instead of ErrIncompatible"),
+ "C08_g": ("same short-node conversion over all nodes as C03_g (range loop with get17bitmap)", "big node whose low labels equal a frequent small bitmap"),
+ "C08_h": ("fail-fast pre-check: neighbouring keys sharing more than 65535 half-bytes are rejected", "a third key branching inside the shared run makes every step fit: valid list rejected"),
+ "C09_g": ("searchID fast path when the key ends at an inner node sets rID = rightChild without the child-range test", "a retained key whose only extensions are de-duplicated keys (single-child node)"),
+ "C09_h": ("same rightMost rewrite as C02_g", "64k inner nodes and the left neighbour under the last inner node"),
+ "C09_i": ("legacy leaf presence bitmap filled word by word, last word = Mask[n&63]", "0.5.10/0.5.11 stream whose leaf count is a multiple of 64"),
+ "C10_g": ("GetID fast path for a big root skips the root's stored prefix without comparing it", "InnerPrefix/Complete trie with a big root that has a prefix; query differing inside the prefix"),
+ "C10_h": ("Marshal strips rank/select indexes, Unmarshal re-indexes but forgets Leaves.PositionBM", "variable-width values after a marshal round trip"),
+ "C11_g": ("Marshal clears and restores st.inner.XXX_unrecognized around the encoding", "two overlapping Marshal calls on a trie loaded from 0.5.10/0.5.11 data"),
+ "C11_h": ("String() memoises decoded label strings in an unsynchronised package-level map", "two overlapping String() calls with a bitmap not seen before in the process"),
+ "C12_g": ("child subsets drop their leading not-kept keys when at least two kept keys remain", "sparse index: a block's tail key shares a branch with the start keys of two following blocks"),
+ "C12_h": ("getLabelIdxOfKey early-return refactoring ends in int32(w+1) with w a byte", "big node and an indexed key with byte 0xff there"),
+ "C13_g": ("steps stored in 1 byte when every step fits, bound maxStepBits <= 1<<10 (256 units do not fit)", "longest branch-free run exactly 128 bytes, no InnerPrefix"),
+ "C13_h": ("key tail copied into a scratch buffer kept in the SlimTrie for the leaf-prefix comparison", "two goroutines querying a trie with leaf prefixes"),
+ "C14_g": ("TypeEncoder.Decode fast path: the int64 case reads Uint32", "int64 values outside 0..2^32-1 encoded with NewTypeEncoder(int64(0))"),
+ "C14_h": ("same legacy presence-bitmap word fill as C09_i", "0.5.10-format data with a multiple of 64 leaves: Get panics, GetI* still answer"),
+ "C15_g": ("TypeEncoder.Encode returns a slice into a pooled scratch buffer", "two Encode results kept before use"),
+ "C15_h": ("String16.Decode fast path table for 1-byte strings built with string(rune(i))", "a one-byte string >= 0x80"),
+ "C16_g": ("Array.Init stores the element encoder before Base.Init validates", "a rejected Init followed by a valid Init with another element type"),
+ "C16_h": ("InitElts bulk-encodes typed slices with binary.Write using the package byte order, not the encoder's", "an Array whose EltEncoder was preset with a big-endian TypeEncoder"),
+ "C17_g": ("257-bit nodes only while fromKeyBit>>3 < maxBigDepth (absolute key position)", "wide nodes below the root and a common prefix of 2-3 bytes"),
+ "C17_h": ("Marshal result cached in the trie, cleared by Reset but not by Unmarshal", "Marshal, direct Unmarshal of a small index into the same object, Marshal"),
+ "C18_g": ("level table taken from snapshots in the builder loop that count leaves with c.leafCnt (0 without values)", "a fresh trie built with values == nil"),
+ "C18_h": ("Marshal buffer from a sync.Pool, Put back by defer while its bytes are returned", "marshal A, marshal a smaller B before A's bytes are consumed"),
+ "C19_g": ("String() sanity check calls Rank128 at n.to", "inner bitmaps ending exactly on a 64-bit boundary"),
+ "C19_h": ("same newVLenArray aggregate slip as C03_h, seen through String()", "String16 values x, yyy, zz"),
+ "C20_g": ("encode.Bytes.Encode zero-pads short values by appending to the caller's slice", "values that are sub-slices with spare capacity of one arena"),
+ "C20_h": ("encodeValues returns the caller's [][]byte for encode.Bytes and newToKeep nils dropped records", "[][]byte values, encode.Bytes, dedup on, adjacent equal values"),
 }
 
 def props():
